@@ -121,7 +121,8 @@ func (s sortableByProperty) Less(i, j int) bool {
 		value := ToLiquid(s.data[i])
 		rt := reflect.ValueOf(value)
 		if rt.Kind() == reflect.Map && rt.Type().Key().Kind() == reflect.String {
-			elem := rt.MapIndex(reflect.ValueOf(s.key))
+			// the key type may be a defined string type, to which a string is not assignable
+			elem := rt.MapIndex(reflect.ValueOf(s.key).Convert(rt.Type().Key()))
 			if elem.IsValid() {
 				return elem.Interface()
 			}
